@@ -274,6 +274,12 @@ impl S3Route for RecRoute {
     async fn call(&self, req: S3Request<Body>) -> S3Result<S3Response<Body>> {
         let cred = req.credentials.as_ref().map(|c| c.access_key.clone());
         self.log.lock().unwrap().push(Event::RouteCall { cred });
+        if req.uri.path().ends_with("/fail") {
+            // a route handler that fails: the error must be rendered like any other S3 error
+            let mut e = S3Error::with_message(S3ErrorCode::ServiceUnavailable, "the custom route failed <&>");
+            e.set_request_id("route-req-1");
+            return Err(e);
+        }
         Ok(S3Response::new(Body::from("custom-route-ok".to_owned())))
     }
 }
